@@ -295,7 +295,17 @@ pub fn run_case(rep: &mut Rep, c: &mut Ctx, case: &Case, rng: &mut impl rand::Rn
             let wit: Vec<num_bigint::BigInt> = match &ref_full {
                 Some(f) => {
                     rep.count("E3_with_reference_witness");
-                    f.iter().map(|x| num_bigint::BigInt::from(x.clone())).collect()
+                    // witness calculators hand the vector over either as canonical residues or in the signed
+                    // representation (values above p/2 as negative integers); the entry point accepts both
+                    let signed = case.index % 2 == 1 || case.label.contains("p-");
+                    if signed {
+                        rep.count("E3_signed_representation");
+                        let pm = p();
+                        let half = &pm >> 1;
+                        f.iter().map(|x| if x > &half { num_bigint::BigInt::from(x.clone()) - num_bigint::BigInt::from(pm.clone()) } else { num_bigint::BigInt::from(x.clone()) }).collect()
+                    } else {
+                        f.iter().map(|x| num_bigint::BigInt::from(x.clone())).collect()
+                    }
                 }
                 None => {
                     rep.count("E3_with_zerokit_witness(fallback)");
